@@ -837,6 +837,10 @@ class ParallelProcess(Process):
         # Only end once.
         if self._ended:
             return
+        if self._pending_command:
+            # The process is being stopped (deleted, divided away)
+            # with a command still in flight: collect its result first.
+            self.get_command_result()
         self.send_command('end')
         if self.profile:
             stats = pstats.Stats()
@@ -846,6 +850,7 @@ class ParallelProcess(Process):
         self.multiprocess.join()
         self.multiprocess.close()
         self._ended = True
+        self._pending_command = None
 
     def __del__(self) -> None:
         self.end()
